@@ -1171,13 +1171,14 @@ class PerturbedDroplet3D(PerturbedDropletBase):
         elif θ.shape != φ.shape:
             raise ValueError("Shape of θ and φ must agree")
         Yk = spherical.spherical_harmonic_real_k
-        correction = 0
+        correction: np.ndarray = np.zeros(θ.shape, dtype=float)
         for k, a in enumerate(self.amplitudes, 1):  # skip zero-th mode!
             if a != 0:
                 l, _ = spherical.spherical_index_lm(k)
                 hk = (l**2 + l - 2) / 2
-                correction = a * hk * Yk(k, θ, φ)  # type: ignore
-        return 1 / self.radius + correction / self.radius**2  # type: ignore
+                correction += a * hk * Yk(k, θ, φ)  # type: ignore
+        # amplitudes are relative to the radius, so the correction scales as 1/R
+        return (1 + correction) / self.radius  # type: ignore
 
     @property
     def volume(self) -> float:
@@ -1269,12 +1270,13 @@ class PerturbedDroplet3DAxisSym(PerturbedDropletBase):
             Array with curvature at the interfacial points associated with the angles
         """
         Yl = spherical.spherical_harmonic_symmetric
-        correction = 0
+        correction: np.ndarray = np.zeros(θ.shape, dtype=float)
         for order, a in enumerate(self.amplitudes, 1):  # skip zero-th mode!
             if a != 0:
                 hl = (order**2 + order - 2) / 2
-                correction = a * hl * Yl(order, θ)  # type: ignore
-        return 1 / self.radius + correction / self.radius**2  # type: ignore
+                correction += a * hl * Yl(order, θ)  # type: ignore
+        # amplitudes are relative to the radius, so the correction scales as 1/R
+        return (1 + correction) / self.radius  # type: ignore
 
     @property
     def volume_approx(self) -> float:
